@@ -142,14 +142,20 @@ def execute(prog):
         raise core.Violation(core.violation(ID, oracle, site, msg, detail))
 
     try:
-        sk = lk.SigningKey.from_secret_exponent(d, curve)
-        sk2 = lk.SigningKey.from_secret_exponent(d2, curve)
+        # keys carry a default hash function; deliveries whose hash is that
+        # default are sometimes verified without naming it
+        dflt_name = prog["items"][0]["hash"] if prog["items"] else "sha1"
+        dflt = libx.hash_by_name(dflt_name)
+        sk = lk.SigningKey.from_secret_exponent(d, curve, dflt)
+        sk2 = lk.SigningKey.from_secret_exponent(d2, curve, dflt)
         # the verifier holds keys it received as bytes (a different object
         # from the signer's: no shared generator / table / scaling state)
+        encs_ = ["uncompressed", "hybrid", "raw"] + (
+            ["compressed"] if mc.plen > 1 else [])
         vk_rx = lk.VerifyingKey.from_string(
-            sk.verifying_key.to_string("uncompressed"), curve)
+            sk.verifying_key.to_string(encs_[d % len(encs_)]), curve, dflt)
         vk2_rx = lk.VerifyingKey.from_string(
-            sk2.verifying_key.to_string("uncompressed"), curve)
+            sk2.verifying_key.to_string(encs_[d2 % len(encs_)]), curve, dflt)
         for it in prog["items"]:
             out["ops"] += 1
             kind = it["kind"]
@@ -318,7 +324,9 @@ def execute(prog):
                 # the verifier's table path (both points precomputed)
                 vkey.precompute(lazy=(it["precompute"] == "lazy"))
             try:
-                if v_msg is not None:
+                if v_msg is not None and v_hf is dflt and it["fseed"] % 3 == 0:
+                    res = vkey.verify(arg, v_msg, sigdecode=dec[fmt])
+                elif v_msg is not None:
                     res = vkey.verify(arg, v_msg, hashfunc=v_hf,
                                       sigdecode=dec[fmt])
                 else:
